@@ -16,6 +16,8 @@ REGISTRY = {
     "C02": ("checks_core", "check_c02"),
     "C03": ("checks_core", "check_c03"),
     "C04": ("checks_core", "check_c04"),
+    "C07": ("checks_fec", "check_c07"),
+    "C16": ("checks_fec", "check_c16"),
     "C12": ("checks_core", "check_c12"),
     "C18": ("checks_core", "check_c18"),
 }
